@@ -122,3 +122,13 @@ Example C30_diff_oracle_example :
     git_decode ex_git_header ex_git_hunk text =
     Some [(ex_fheader, [(encode_header ex_header, ex_lines)])].
 Proof. exact ex_diff_roundtrip. Qed.
+
+(* the repair does not change what is printed for hunks without trailing
+   whitespace (the recorded `rad patch` / `rad diff` / `rad id` outputs): on such
+   hunks the encoder as found and the repaired encoder produce the same text *)
+Theorem C30_fix_preserves_output :
+  forall h body,
+    hline h = body ++ [10] -> trim_end body = body -> ~ In 10 body ->
+    Forall (fun m => exists c, modif_line m = c ++ [10] /\ trim_end c = c) (hlines h) ->
+    encode_hunk_orig h = encode_hunk h.
+Proof. exact fix_preserves_hunks. Qed.
